@@ -46,7 +46,7 @@ func TestVerifReplayC20(t *testing.T) {
 						if path != "" {
 							fi = vaInfo{path}
 						}
-						anns = append(anns, newFileAnnotation(fi, line, col, line+1, col+2, "TYPE", msg, plugin))
+						anns = append(anns, newFileAnnotation(fi, line, col, line+3-len(msg)%2, col+2, "TYPE", msg, plugin))
 					}
 				}
 			}
@@ -128,6 +128,9 @@ func TestVerifReplayC20(t *testing.T) {
 				continue
 			}
 			c1, c2 := fileAnnotationCompareTo(a, b), fileAnnotationCompareTo(b, a)
+			if want := vaDocCompare(a, b); (c1 < 0) != (want < 0) || (c1 > 0) != (want > 0) {
+				report("fileAnnotationCompareTo(%v, %v) = %d, the documented order (path, start line, start column, type, message, end line, end column) gives %d", a, b, c1, want)
+			}
 			if (c1 < 0) != (c2 > 0) || (c1 == 0) != (c2 == 0) {
 				report("fileAnnotationCompareTo is not antisymmetric on %v / %v: %d, %d", a, b, c1, c2)
 			}
@@ -136,4 +139,32 @@ func TestVerifReplayC20(t *testing.T) {
 	if found == 0 {
 		fmt.Printf("VERIF-REPLAY no failing input found for %s (%d annotations, all formats)\n", fn, len(anns))
 	}
+}
+
+func vaDocCompare(a, b FileAnnotation) int {
+	cmpS := func(x, y string) int { return strings.Compare(x, y) }
+	cmpI := func(x, y int) int {
+		if x < y {
+			return -1
+		}
+		if x > y {
+			return 1
+		}
+		return 0
+	}
+	ap, bp := "", ""
+	ah, bh := 0, 0
+	if a.FileInfo() != nil {
+		ap, ah = a.FileInfo().ExternalPath(), 1
+	}
+	if b.FileInfo() != nil {
+		bp, bh = b.FileInfo().ExternalPath(), 1
+	}
+	for _, c := range []int{cmpI(ah, bh), cmpS(ap, bp), cmpI(a.StartLine(), b.StartLine()), cmpI(a.StartColumn(), b.StartColumn()),
+		cmpS(a.Type(), b.Type()), cmpS(a.Message(), b.Message()), cmpI(a.EndLine(), b.EndLine()), cmpI(a.EndColumn(), b.EndColumn())} {
+		if c != 0 {
+			return c
+		}
+	}
+	return 0
 }
